@@ -566,7 +566,12 @@ def _build_scaled_pred(dim, r, cmps, F):
         items = [r.choice(pool) for _ in range(n)]
         for p in _positions(r, n, r.randrange(1, 4)):
             items[p] = ("bool", oth, r.choice(pool), r.choice(pool))
-        shape = r.randrange(3)
+        # the ends of a run are where an iterative rewrite of the recursion goes wrong first
+        if r.random() < 0.5:
+            items[0] = ("bool", oth, r.choice(pool), r.choice(pool))
+        if r.random() < 0.3:
+            items[-1] = ("bool", oth, r.choice(pool), r.choice(pool))
+        shape = r.choice([0, 0, 1, 2])
         if shape == 0:
             t = items[0]
             for x in items[1:]:
